@@ -10,6 +10,8 @@ git -C /repo worktree add -q --detach $wt HEAD || exit 2
 git -C $wt apply $patch || { echo "PATCH DOES NOT APPLY"; git -C /repo worktree remove --force $wt; exit 2; }
 for c in "$@"; do
   VERIF_REPO=$wt /verif/bin/gosym check $c > /tmp/seedcheck_${name}_$c.log 2>&1; rc=$?
+  # the run above rewrote evidence/$c.json from the seeded tree: put the committed one back
+  git -C /verif checkout -q -- evidence/$c.json 2>/dev/null
   echo "$c exit=$rc  $(grep -c '^VIOLATION' /tmp/seedcheck_${name}_$c.log) VIOLATION lines; $(grep -m1 -E 'violated:|BROKEN' /tmp/seedcheck_${name}_$c.log | cut -c1-220)"
 done
 git -C /repo worktree remove --force $wt
